@@ -297,3 +297,67 @@ Definition rot_spec (t0 : Z) (usedir : bool) (script : list outcome) (ops : list
   (forall i p o, nth_error pts i = Some p -> nth_error os i = Some o ->
      point_spec usedir script fs i p (prev_files os i) o) /\
   (forall k f, nth_error fs k = Some f -> fetch_spec script fs pts k f).
+
+(* ===================================================================================== *)
+(* Part 3 — consumers reading WHILE the loop renews: "Ready and the SVID source never deadlock
+   ... The SVID served is always the most recently fetched one", for GetX509SVID / Ready calls
+   that run concurrently with renewals (several goroutines calling in a loop while the issuer is
+   asked again and again). The interleaving is not part of the input; the demands below hold for
+   every interleaving.
+
+   Vocabulary: issuer request k is answered by the k-th element of the script (an exhausted
+   script answers with a failure); the loop is sequential, so when request k has STARTED the SVID
+   of every successful request below k-1 has been stored, and only requests that have started can
+   have been stored.                                                                          *)
+
+(* A maximal run of consecutive calls of ONE reader goroutine that returned the same result.
+   [sg_res] = leaf serial (= index of the issuer request that issued it) when the private key is
+   the one generated for that request; -1 = error; -2 = a call that did not return within the
+   liveness deadline; -3 = certificate and key belong to different fetches.
+   [sg_hi] = issuer requests started by the time the FIRST call of the run returned;
+   [sg_lo] = issuer requests started before the LAST call of the run began.                   *)
+Record seg := mkSeg { sg_res : Z; sg_hi : Z; sg_lo : Z }.
+
+(* index of the newest successful request among requests 0 .. k-1; -1 if none *)
+Fixpoint last_ok_below (script : list outcome) (k : nat) : Z :=
+  match k with
+  | O => -1
+  | S j => if is_ok (outcome_at script j) then Z.of_nat j else last_ok_below script j
+  end.
+
+(* The result is an SVID that was fetched, not older than what had certainly been stored when
+   the call began and not newer than what had been requested when it returned. *)
+Definition seg_ok (script : list outcome) (s : seg) : bool :=
+  (0 <=? sg_res s) && is_ok (outcome_at script (Z.to_nat (sg_res s))) &&
+  (last_ok_below script (Z.to_nat (sg_lo s - 1)) <=? sg_res s) &&
+  (sg_res s <=? last_ok_below script (Z.to_nat (sg_hi s))).
+
+(* a reader never sees an older SVID after a newer one *)
+Fixpoint increasing (prev : Z) (l : list seg) : bool :=
+  match l with
+  | [] => true
+  | s :: r => (prev <? sg_res s) && increasing (sg_res s) r
+  end.
+
+Definition reader_ok (script : list outcome) (l : list seg) : bool :=
+  forallb (seg_ok script) l && increasing (-1) l.
+
+(* [nreq] = issuer requests made by the end of the run (the driver delivers every timer until
+   the script is used up: all scripted requests plus the first unscripted one must be made -
+   the loop never stops renewing); [ready_ok] = every Ready call made during the run returned
+   nil; [readers] = the runs of every reader goroutine. *)
+Definition conc_oracle (script : list outcome) (nreq : Z) (ready_ok : bool)
+           (readers : list (list seg)) : bool :=
+  (nreq =? Z.of_nat (length script) + 1) && ready_ok && forallb (reader_ok script) readers.
+
+Definition seg_spec (script : list outcome) (s : seg) : Prop :=
+  0 <= sg_res s /\ is_ok (outcome_at script (Z.to_nat (sg_res s))) = true /\
+  last_ok_below script (Z.to_nat (sg_lo s - 1)) <= sg_res s /\
+  sg_res s <= last_ok_below script (Z.to_nat (sg_hi s)).
+
+Definition conc_spec (script : list outcome) (nreq : Z) (ready_ok : bool)
+           (readers : list (list seg)) : Prop :=
+  nreq = Z.of_nat (length script) + 1 /\ ready_ok = true /\
+  forall l, In l readers ->
+    (forall s, In s l -> seg_spec script s) /\
+    (forall i a b, nth_error l i = Some a -> nth_error l (S i) = Some b -> sg_res a < sg_res b).
